@@ -24,6 +24,10 @@ STRENGTHENED = {
  "C06-3": "strengthened before the first run (no payload above 70 000 bytes in C06): 1 MiB + 64 KiB + 1 payload",
  "C08-3": "strengthened before the first run (the async consumer always retried with the same buffer): buffer-switching consumer",
  "C09-3": "strengthened before the first run: base program with a second operation group; C19 caught the same change from the start",
+ "C11-3": "strengthened before the first run (no check ever serialised a request object, changed it and serialised it again): C01 mutation histories on one object + C11 encode-mutate-send",
+ "C13-3": "strengthened before the first run (no user-info of the product contained a host string): eighth user-info shape, 62 720 URIs",
+ "C14-3": "caught from the start by the parallel run but with schedule-dependent witnesses; C13/C14 now also run the product in ascending and in descending order on one thread (history made deterministic)",
+ "C18-3": "strengthened before the first run (no option text contained a comma): two comma options added",
  "C18-1": "missed by C18 at first (caught by C17 from the start); C18 now scripts all 10 blocking reasons, scalar and inside a set",
 }
 def main():
